@@ -140,31 +140,53 @@ def r2(chk, pairs):
         h1 = [h for h in halves if h[0] == "syn"][0][1]
         h2 = [h for h in halves if h[0] == "syn2"][0][1]
         key = f"{f}:{encl}:{kind} {name}"
+        def tail_expr(h):
+            """The expression a half computes: a let's initialiser, or the single tail expression of a fn body."""
+            if kind == "let":
+                return h.get("init")
+            b = h.get("body")
+            if b and b.get("stmts") and len(b["stmts"]) == 1 and b["stmts"][0]["k"] in ("Expr", "ExprStmt"):
+                return b["stmts"][0].get("expr") or b["stmts"][0]
+            if b and b.get("stmts") and len(b["stmts"]) == 1:
+                return b["stmts"][0]
+            return None
+
+        def strip_ok(t):
+            m = re.fullmatch(r"Ok\((.*)\)", t)
+            return m.group(1) if m else t
+        x1, x2 = tail_expr(h1), tail_expr(h2)
+        e1 = norm_ws(render(x1)) if x1 else ""
+        e2 = norm_ws(render(x2)) if x2 else ""
         if kind == "fn":
             b1 = norm_ws(render(h1["body"]))
             b2 = norm_ws(render(h2["body"])).replace(",Token!(,))", ")")
+
             def sg(h):
                 return [h["sig"]["name"], [norm_ws(i.get("ty", "self")) for i in h["sig"]["inputs"]], norm_ws(h["sig"]["output"]), norm_ws(h["sig"]["generics"])]
-            sig_same = sg(h1) == sg(h2)
-            chk.expect("R2", key, b1 == b2 and sig_same, f, h2["line"], "the two back-end copies of this fn differ beyond parse_terminated's separator argument",
-                       found={"syn": b1[:200], "syn2": b2[:200]} if b1 != b2 else "signature")
-        elif kind == "let" and name == "path":
-            e1, e2 = norm_ws(render(h1.get("init"))), norm_ws(render(h2.get("init")))
-            ok = bool(re.fullmatch(r"&(\w+)\.path", e1)) and bool(re.fullmatch(r"(\w+)\.meta\.path\(\)", e2)) and e1[1:].split(".")[0] == e2.split(".")[0]
-            chk.expect("R2", key, ok, f, h1["line"], "the two halves do not both take the attribute's own path", found={"syn": e1, "syn2": e2})
-        elif kind == "let" and name == "tokens":
-            # syn1 half: parse2(<attr>.tokens) as OptionalParenthesizedTokenStream, then .content(), errors propagated
-            e1 = norm_ws(render(h1.get("init")))
-            ok1 = bool(re.fullmatch(r"syn::parse2\((\w+)\.tokens\.clone\(\)\)\.map\(\|(\w+):OptionalParenthesizedTokenStream\|\2\.content\(\)\)\?", e1))
+            if b1 == b2 and sg(h1) == sg(h2):
+                chk.ok("R2", key, f, h2["line"], detail="identical modulo parse_terminated's separator argument")
+                continue
+        # (a) both halves take the attribute's own path
+        m1 = re.fullmatch(r"\{?&(\w+)\.path\}?", e1)
+        m2 = re.fullmatch(r"\{?(\w+)\.meta\.path\(\)\}?", e2)
+        if m1 or m2:
+            ok = bool(m1 and m2 and m1.group(1) == m2.group(1))
+            chk.shape("R2", key, ok, bool(m1 and m2) and not ok, f, h1["line"], what="the two halves do not both take the attribute's own path", found={"syn": e1[:80], "syn2": e2[:80]})
+            continue
+        # (b) the argument tokens: syn1 parse2::<OptionalParenthesizedTokenStream>(tokens).content(); syn2 a match over Meta
+        ok1 = bool(re.fullmatch(r"\{?syn::parse2\((\w+)\.tokens\.clone\(\)\)\.map\(\|(\w+):OptionalParenthesizedTokenStream\|\2\.content\(\)\)\??\}?", e1))
+        init2 = x2
+        if init2 is not None and init2["k"] == "Block" and len(init2.get("stmts", [])) == 1:
+            init2 = init2["stmts"][0].get("expr", init2["stmts"][0])
+        is_meta_match = init2 is not None and init2["k"] == "Match" and norm_ws(render(init2["scrut"])).endswith(".meta")
+        if ok1 or is_meta_match:
             shape1 = {"none": "empty", "paren": "content", "brace": "reject", "bracket": "reject", "name_value": "reject"} if ok1 else None
-            # syn2 half: match on Meta, arm by arm
             shape2 = None
-            init2 = h2.get("init")
-            if init2 and init2["k"] == "Match" and norm_ws(render(init2["scrut"])).endswith(".meta"):
+            if is_meta_match:
                 shape2 = {}
                 for a in init2["arms"]:
                     p = render_pat(a["pat"]).replace(" ", "")
-                    body = norm_ws(render(a["body"]))
+                    body = strip_ok(norm_ws(render(a["body"])))
                     guard = norm_ws(render(a["guard"])) if "guard" in a else ""
                     if "Meta::Path" in p:
                         shape2["none"] = "empty" if body == "TokenStream::new()" else body
@@ -181,20 +203,37 @@ def r2(chk, pairs):
                             shape2.setdefault("brace", "reject")
                             shape2.setdefault("bracket", "reject")
                     elif "Meta::NameValue" in p:
-                        shape2["name_value"] = "reject" if "Err(" in body and body.endswith("?") else body
+                        shape2["name_value"] = "reject" if "Err(" in body else body
                 shape2.setdefault("brace", "reject" if shape2.get("paren") == "content" and any("Paren" in norm_ws(render(a.get("guard"))) for a in init2["arms"] if "guard" in a) else shape2.get("brace", "?"))
                 shape2.setdefault("bracket", shape2["brace"])
-            chk.expect("R2", key + "/syn1-shape", ok1, f, h1["line"], "syn1 half is not parse2::<OptionalParenthesizedTokenStream>(tokens).content()?", found=e1)
             if shape1 and shape2 is not None:
+                chk.ok("R2", key + "/syn1-shape", f, h1["line"])
                 for k2 in ("none", "paren", "brace", "bracket", "name_value"):
                     chk.expect("R2", f"{key}[{k2}]", shape1[k2] == shape2.get(k2), f, h2["line"],
                                "the two back-ends disagree on which attribute argument shapes are accepted", expected={"syn": shape1[k2]}, found={"syn2": shape2.get(k2)})
             else:
-                chk.bad("R2", key + "/syn2-shape", f, h2["line"], "syn2 half is not a match over the attribute's Meta", found=norm_ws(render(init2))[:120] if init2 else None)
-        else:
-            e1 = norm_ws(render(h1.get("init") or h1.get("body")))
-            e2 = norm_ws(render(h2.get("init") or h2.get("body")))
-            chk.expect("R2", key, e1 == e2, f, h1["line"], "unrecognised back-end pair whose halves differ", found={"syn": e1[:120], "syn2": e2[:120]})
+                chk.inconc("R2", f"{key}: one half of the argument-token pair is not of a recognised shape (syn: {e1[:80]} | syn2: {e2[:80]})")
+            continue
+        if e1 and e1 == e2:
+            chk.ok("R2", key, f, h1["line"])
+            continue
+        # halves differ: a difference confined to back-end-independent code is a divergence; one touching syn API names is not decidable here
+        import difflib
+        src1 = norm_ws(render(h1.get("body") or h1.get("init")))
+        src2 = norm_ws(render(h2.get("body") or h2.get("init"))).replace(",Token!(,))", ")")
+        t1 = re.findall(r"\w+|[^\w\s]", src1)
+        t2 = re.findall(r"\w+|[^\w\s]", src2)
+        changed = []
+        for tag, i1, i2, j1, j2 in difflib.SequenceMatcher(None, t1, t2, autojunk=False).get_opcodes():
+            if tag != "equal":
+                changed += t1[i1:i2] + t2[j1:j2]
+        API = {"meta", "Meta", "path", "tokens", "parse_terminated", "parse_args_with", "MacroDelimiter", "delimiter", "List", "Path", "NameValue", "require_list", "attrs", "parse_nested_meta",
+               "Token", "syn", "syn2", "Punctuated", "parse2", "OptionalParenthesizedTokenStream", "content", "TokenStream", "new", "Ok", "Err", "Error", "span", "spanned", "Spanned"}
+        words = [w for w in changed if re.fullmatch(r"[A-Za-z_]\w*", w)]
+        independent = bool(words) and not any(w in API for w in words)
+        chk.shape("R2", key, False, independent, f, h2["line"],
+                  what="the two back-end copies differ in code that does not depend on the syn version (the same input is processed differently under syn 1 and syn 2)",
+                  found={"differing_tokens": changed[:20]})
     # the syn1 acceptance shape rests on OptionalParenthesizedTokenStream::parse peeking only Paren (C13.R1 checks it too)
     fp = repo.fn(ATTR, "parse", impl="OptionalParenthesizedTokenStream")
     peeks = [render(m["args"][0]) for m in method_calls(fp.body, "peek")]
